@@ -149,6 +149,7 @@ type vfbNet struct {
 	inflight int64
 
 	// fault plan, consulted for every honest partial (guarded by mu)
+	deadLinks map[[2]int]bool // directed links on which every partial is lost
 	dropPct   int
 	dupPct    int
 	delayMax  time.Duration
@@ -637,6 +638,11 @@ func (c *vfbClient) PartialBeacon(ctx context.Context, p net.Peer, in *proto.Par
 		return errors.New("vfb: link down")
 	}
 	nt.mu.Lock()
+	if nt.deadLinks != nil && nt.deadLinks[[2]int{c.from.pos, to.pos}] {
+		nt.mu.Unlock()
+		nt.run.Count("partials_lost_on_dead_links", 1)
+		return errors.New("vfb: link down")
+	}
 	drop := nt.dropPct > 0 && nt.rng.Chance(nt.dropPct)
 	dup := nt.dupPct > 0 && nt.rng.Chance(nt.dupPct)
 	var delay time.Duration
